@@ -11,42 +11,63 @@ READY = True
 MANIFEST = dict(
     text="Lean 4 theorems about a statement-by-statement model of Group mode (Group.glomit, GROUP with its single "
          "accumulator tree keyed by id(spec) / spec objects / bucket keys, the STOP marks and the `done` flag, First, "
-         "Max, Min, Avg, Limit, Fold._agg, Merge._agg): for every spec tree of any depth, every item sequence and "
-         "every key function, the result equals the dictionary of a hand-written bucketing loop (keys in order of first "
-         "occurrence, values in encounter order, SKIP drops an item, every leaf equal to its plain-Python reference over "
-         "the items routed to it) — c16_eq_reference_partial, proved under the two hypotheses the proof forces (no "
-         "STOP source under a key level; bucket keys apart from id(spec)/key-spec objects), plus top-level Limit(n) = "
-         "the first n items, top-level First, freshness of the tree on re-use and nesting.  The full statement is "
-         "DISPROVED in the model by `decide` on the two concrete witnesses (c16_F9_counterexample, "
-         "c16_F10_counterexample), on which model and real glom agree: both are genuine defects of /repo, listed as "
-         "known findings.  Per-run facts obligation: the 113 statements of Group mode regenerated from /repo equal the "
-         "statements the model transcribes.  Model tied to the code by differential execution.",
-    note="partial: the equality theorem needs H1 (a STOP-producing leaf under a key level stops the whole level in the "
-         "code: F9) and H2 (the tree mixes namespaces: F10).  trusted: Lean kernel + {propext, Classical.choice, "
-         "Quot.sound}; extractor; harness/driver; one key-spec per dict level and one value-spec per list (the "
-         "documented shape); key/value functions from a finite catalogue (T-expressions and lambdas); IEEE division of "
-         "Avg is a primitive (float(sum)/count on exact integer sums, compared by bit pattern); Sample (random) is out "
-         "of scope; runs in which a user function raises are outside the property (error classes still compared).",
-    technique='Lean 4 simulation proof (tree-threading interpreter = bucketing loop) + decide on counterexample '
-              'witnesses + facts obligation + differential correspondence',
+         "Max, Min, Avg, Sample with its random source as a parameter, Limit at any depth, Fold._agg, Merge._agg, "
+         "aggregator CLASSES used as nodes, class objects used as key functions, T-expressions with the arithmetic "
+         "operators of _t_eval): c16_exact — for every spec tree of any depth, every item sequence and every key "
+         "function the result is EXACTLY the dictionary of a hand-written bucketing loop over the items before the "
+         "first STOP event (keys in order of first occurrence, values in encounter order, SKIP drops an item, every "
+         "leaf equal to its plain-Python reference over the items routed to it), under the one hypothesis the proof "
+         "forces (no bucket key equals id() of its spec dict).  Corollaries: c16_eq_reference_partial (no STOP event: "
+         "the whole hand-written loop), top-level Limit(n) / First, per-bucket independence, Sample = the reservoir "
+         "reference with length / membership bounds, freshness of the tree on re-use, nesting and in every history of "
+         "evaluations.  The full statement is DISPROVED in the model by `decide` on the two concrete witnesses "
+         "(c16_F9_counterexample, c16_F10_counterexample), on which model and real glom agree: both are genuine "
+         "defects of /repo, listed as known findings; c16_exact (F9) and c16_F10_exact (F10) say exactly what the code "
+         "computes instead.  T-expression evaluation on a store of mutable cells never writes an existing cell "
+         "(c16_texpr_frame) and refines the value-level evaluation.  Per-run facts obligation: the statements of Group "
+         "mode regenerated from /repo equal the statements the model transcribes, grouping.py has no module-level "
+         "state besides its two sentinels, every arithmetic arm of _t_eval rebinds `cur`.  Model tied to the code by "
+         "differential execution of histories of evaluations, each case in a fresh copy of the process.",
+    note="partial: the equality with the hand-written loop needs H1'' (no STOP EVENT under a key level — a STOP from "
+         "one bucket's leaf ends the whole evaluation in the code: F9) and H2' (the tree mixes namespaces: F10).  "
+         "trusted: Lean kernel + {propext, Classical.choice, Quot.sound}; extractor; harness/driver; one key-spec per "
+         "dict level and one value-spec per list (the documented shape); key/value functions from a finite catalogue "
+         "(T-expression chains, class objects, lambdas); IEEE division of Avg is a primitive (float(sum)/count on "
+         "exact integer sums, compared by bit pattern); Sample's random source is a function of num_seen (a table; "
+         "the harness substitutes random.randint by it), which covers every draw sequence of ONE reservoir, not the "
+         "joint distribution over several; runs in which a user function raises are outside the property (error "
+         "classes still compared).",
+    technique='Lean 4 simulation proof (tree-threading interpreter = bucketing loop cut at the first STOP event) + '
+              'decide on counterexample witnesses + facts obligation + differential correspondence over histories',
     ref='DESIGN.md §3 C16')
-RULE = ('type-directed: a Group spec tree is drawn first (0-3 key levels; key functions T % n, T[k], len and lambdas '
-        'incl. SKIP-producing ones; leaf = [f] / First / Max / Min / Avg / Sum(f) / Count / Flatten(f) / Merge(f) / a '
-        'bare function / a nested Group; optionally a top-level Limit(n)), then 1-3 item sequences of the family the '
-        'spec needs (ints, bools, strs, small dicts, lists/tuples; 0-12 items), all evaluated with the SAME spec object; '
-        'a one-edit mutation stream plants a wrong-typed item / missing key / STOP-producing function; two separate '
-        'streams violate H1 (First / Limit / stop_at under a key level) and H2 (a key function returning id(spec dict) '
-        'or the key-spec object) on purpose; thorough additionally enumerates all specs of a small grammar over fixed '
-        'item lists. non-trivial = some run has >= 2 items; distinct = distinct (spec, runs).')
-TRUSTED = ['the catalogue of key/value functions (Lean `Fn.apply` vs the Python lambdas / T-expressions below) and '
-           'Python dict / comparison / iteration semantics as modelled in Glom/Model/C16.lean: validated by the '
-           'correspondence only',
-           'Avg: float(sum)/count as an IEEE primitive (Lean Float in the driver); averaged values are ints with |sum| < 2^53']
+RULE = ('type-directed: a case is a HISTORY in one (forked, fresh) process: 1-3 Group spec objects, 1-3 target objects '
+        'with shared sub-objects (the same item object at several positions / in several targets, a list or dict field '
+        'shared by several items), and a list of evaluations (spec i on target j; the same spec object and the same '
+        'target object repeatedly, other spec objects in between, both orders).  Spec trees: 0-3 key levels; key '
+        'functions T % n, T[k], len, lambdas incl. SKIP-producing ones, T-expression chains with + * | % on ints, '
+        'strings, lists, tuples and dicts (key and leaf computed from the same mutable field), the class objects type '
+        '/ str / bool / int; leaf = [f] / First / Max / Min / Avg / Sum(f) / Count / Flatten(f) / Merge(f) / Sample(k) '
+        '/ a bare function / a nested Group / an aggregator CLASS used without instantiation (static or class method '
+        'agg) / an aggregator class without parentheses; Limit(n) at the top and below key levels.  Observed per '
+        'evaluation: the result, the target afterwards (values) and whether every edge of its object graph still '
+        'points to the same object.  Item families: ints, bools, strs, small dicts, lists/tuples; 0-12 items.  A '
+        'one-edit mutation stream plants a wrong-typed item / missing key / STOP-producing function / a forgotten '
+        'pair of parentheses; two separate streams violate H1 (First / Limit / stop_at under a key level) and H2 (a '
+        'key function returning id(spec dict) or the key-spec object) on purpose; thorough additionally enumerates '
+        'all specs of a small grammar over fixed item lists and all orders of small histories. non-trivial = some '
+        'evaluated target has >= 2 items; distinct = distinct (specs, targets, evals).')
+TRUSTED = ['the catalogue of key/value functions (Lean `Fn.apply` vs the Python lambdas / T-expressions / class '
+           'objects below) and Python dict / comparison / iteration / str() semantics as modelled in '
+           'Glom/Model/C16.lean: validated by the correspondence only',
+           'Avg: float(sum)/count as an IEEE primitive (Lean Float in the driver); averaged values are ints with |sum| < 2^53',
+           'Sample: random.randint is substituted by a table-driven function of its upper bound for the evaluation']
 ASSUMPTIONS = ['one key-spec per dict level and one value-spec per list level (multi-entry levels are outside the model)',
                'object addresses (id()) are larger than every generated int (1e9)',
                'a SKIP-producing bare function in value position under a key level is skipped (keys are then ordered '
                'by first value, not first occurrence)',
-               'runs in which a user function raises are outside the property']
+               'runs in which a user function raises are outside the property',
+               'os.fork is available: every case runs in a fresh copy of a process that has imported glom and '
+               'evaluated nothing (VERIF_C16_NOFORK=1 runs in-process)']
 
 
 # ------------------------------------------------------------------ values
@@ -68,7 +89,29 @@ def jv(v):
     raise ValueError(v)
 
 
-def dec(j, objs=None):
+class Edges:
+    """every container -> child edge of the objects built from a case: `check()` says whether each
+    still points to the very same object"""
+    def __init__(self):
+        self.edges = []
+
+    def add(self, container, key, child):
+        self.edges.append((container, key, child))
+
+    def check(self):
+        for c, k, ch in self.edges:
+            try:
+                if type(c) is tuple or type(c) is list:
+                    if c[k] is not ch:
+                        return False
+                elif c[k] is not ch:
+                    return False
+            except Exception:
+                return False
+        return True
+
+
+def dec(j, objs=None, shared=None, edges=None):
     from glom import SKIP, STOP
     if j is None:
         return None
@@ -80,17 +123,36 @@ def dec(j, objs=None):
         return j['s']
     if 'sent' in j:
         return SKIP if j['sent'] == 'SKIP' else STOP
-    if 'l' in j:
-        return [dec(x, objs) for x in j['l']]
-    if 't' in j:
-        return tuple(dec(x, objs) for x in j['t'])
+    if 'sh' in j:
+        return shared[j['sh']]
+    if 'l' in j or 't' in j:
+        xs = [dec(x, objs, shared, edges) for x in (j['l'] if 'l' in j else j['t'])]
+        out = xs if 'l' in j else tuple(xs)
+        if edges is not None:
+            for i, x in enumerate(xs):
+                edges.add(out, i, x)
+        return out
     if 'd' in j:
-        return {dec(k, objs): dec(v, objs) for k, v in j['d']}
+        out = {}
+        for k, v in j['d']:
+            kk, vv = dec(k, objs, shared, edges), dec(v, objs, shared, edges)
+            out[kk] = vv
+            if edges is not None:
+                edges.add(out, kk, vv)
+        return out
     if 'obj' in j:
         return objs[j['obj']]
     if 'id' in j:
         return id(objs[j['id']])
     raise ValueError(j)
+
+
+CLS_BASE = 1000
+# class objects by identity (Lean: `typeObj`): the values `type(x)` returns — and the SAME objects when
+# they are used as key functions (`bool`, `int`, `str`, `type`): then the key-spec object of the level
+# is that class object (`kid` = its number)
+TYPE_OBJS = [type(None), bool, int, str, float, list, tuple, dict, None, type]
+CLS_IDX = {'bool': 1, 'int': 2, 'str': 3, 'type': 9}
 
 
 def enc(v, ids, oids):
@@ -111,6 +173,8 @@ def enc(v, ids, oids):
         return {'s': v}
     if isinstance(v, float):
         return {'fbits': str(struct.unpack('<Q', struct.pack('<d', v))[0])}
+    if isinstance(v, type) and v in TYPE_OBJS:
+        return {'obj': CLS_BASE + TYPE_OBJS.index(v)}
     if id(v) in oids:
         return {'obj': oids[id(v)]}
     if type(v) is list:
@@ -122,7 +186,42 @@ def enc(v, ids, oids):
     return {'s': '<unknown %s>' % type(v).__name__}
 
 
+def resolve(j, shared_json):
+    """the plain value (no {'sh': n}) a target entry denotes"""
+    if j is None or not isinstance(j, dict):
+        return j
+    if 'sh' in j:
+        return resolve(shared_json[j['sh']], shared_json)
+    if 'l' in j:
+        return {'l': [resolve(x, shared_json) for x in j['l']]}
+    if 't' in j:
+        return {'t': [resolve(x, shared_json) for x in j['t']]}
+    if 'd' in j:
+        return {'d': [[resolve(k, shared_json), resolve(v, shared_json)] for k, v in j['d']]}
+    return j
+
+
 # ------------------------------------------------------------------ building the real spec
+def build_texpr(ops):
+    from glom import T
+    t = T
+    for o in ops:
+        k = o['op']
+        if k == 'item':
+            t = t[dec(o['k'])]
+        elif k == 'add':
+            t = t + dec(o['v'])
+        elif k == 'mul':
+            t = t * o['n']
+        elif k == 'or':
+            t = t | dec(o['v'])
+        elif k == 'mod':
+            t = t % o['n']
+        else:
+            raise ValueError(k)
+    return t
+
+
 def build_fn(j, objs):
     from glom import T, SKIP, STOP
     name = j['fn']
@@ -132,6 +231,10 @@ def build_fn(j, objs):
         return T % j['n']
     if name == 'item':
         return T[dec(j['k'])]
+    if name == 't':
+        return build_texpr(j['ops'])
+    if name == 'cls':
+        return {'type': type, 'str': str, 'bool': bool, 'int': int}[j['c']]
     if name == 'skip_odd':
         return lambda t: SKIP if t % 2 else t
     if name == 'skip_if':
@@ -160,8 +263,26 @@ def build_fn(j, objs):
     raise ValueError(name)
 
 
+def make_cls_last():
+    """a stateless aggregator used as a CLASS ("any object that defines agg(target, accumulator)")"""
+    class Last:
+        @staticmethod
+        def agg(target, tree):
+            return target
+    return Last
+
+
+def make_cls_count():
+    class Tally:
+        @classmethod
+        def agg(cls, target, tree):
+            tree[cls] = tree.get(cls, 0) + 1
+            return tree[cls]
+    return Tally
+
+
 def build_spec(j, objs):
-    from glom.grouping import Group, First, Avg, Max, Min, Limit
+    from glom.grouping import Group, First, Avg, Max, Min, Limit, Sample
     from glom.reduction import Sum, Count, Flatten, Merge
     k = j['k']
     if k == 'dict':
@@ -182,6 +303,14 @@ def build_spec(j, objs):
             f = build_fn(a['f'], objs) if 'f' in a else None
             cls = {'sum': Sum, 'flatten': Flatten, 'merge': Merge}[n]
             o = cls(f) if f is not None else cls()
+        elif n == 'sample':
+            o = Sample(a['size'])
+        elif n == 'cls_last':
+            o = make_cls_last()
+        elif n == 'cls_count':
+            o = make_cls_count()
+        elif n == 'unbound':
+            o = {'First': First, 'Max': Max, 'Min': Min, 'Avg': Avg}[a.get('of', 'First')]   # parentheses forgotten
         else:
             o = {'first': First, 'max': Max, 'min': Min, 'avg': Avg, 'count': Count}[n]()
         objs[j['oid']] = o
@@ -205,25 +334,200 @@ def exc_class(e):
     return type(e)
 
 
-def run_impl(case):
+def set_tbl(s, tbl):
+    """every Sample node of a case draws from the case's one table"""
+    if s['k'] == 'agg' and s['a']['agg'] == 'sample':
+        s['a']['tbl'] = list(tbl)
+    for c in ('sub', 'g'):
+        if c in s:
+            set_tbl(s[c], tbl)
+
+
+def normalize(case):
+    """the canonical form {'specs', 'shared', 'targets', 'evals', 'rng'}; the earlier form
+    {'spec', 'runs'} is one spec object evaluated on each run in turn"""
+    c = {k: v for k, v in case.items() if not k.startswith('impl')}
+    if 'specs' not in c:
+        c['specs'] = [c.pop('spec')]
+        c['targets'] = c.pop('runs')
+        c['evals'] = [[0, i] for i in range(len(c['targets']))]
+    c.setdefault('shared', [])
+    c.setdefault('rng', [])
+    c = json.loads(json.dumps(c))
+    for s in c['specs']:
+        set_tbl(s, c['rng'])
+    return c
+
+
+def _run_here(case):
     import glom
     from glom.grouping import Group
-    objs = {}
-    spec = build_spec(case['spec'], objs)
-    g = Group(spec)                      # ONE spec object for all runs
-    ids = {id(o): n for n, o in objs.items() if type(o) in (dict, list)}
-    oids = {id(o): n for n, o in objs.items() if type(o) not in (dict, list)}
+    import random as _random
+    tbl = case['rng']
+
+    def table_randint(a, b):
+        # random.randint(0, num_seen), as a function of num_seen (Lean: `draw`)
+        return (tbl[b % len(tbl)] % (b + 1)) if tbl else 0
+    _random.randint = table_randint
+
+    groups, encs = [], []
+    for sj in case['specs']:
+        objs = {}
+        spec = build_spec(sj, objs)
+        groups.append(Group(spec))               # ONE Group object per spec for the whole history
+        ids = {id(o): n for n, o in objs.items() if type(o) in (dict, list)}
+        oids = {id(o): n for n, o in objs.items() if type(o) not in (dict, list)}
+        encs.append((objs, ids, oids))
+    edges = Edges()
+    shared = []
+    for sj in case['shared']:
+        shared.append(dec(sj, None, shared, edges))
+    targets = []
+    for tj in case['targets']:
+        t = []
+        for x in tj:
+            # {'id': n} / {'obj': n} inside items refer to the first spec's objects
+            t.append(dec(x, encs[0][0] if encs else None, shared, edges))
+        for i, x in enumerate(t):
+            edges.add(t, i, x)
+        targets.append(t)
+    lens = [len(t) for t in targets]
     out = []
-    for items in case['runs']:
-        target = [dec(x, objs) for x in items]
+    for si, ti in case['evals']:
+        objs, ids, oids = encs[si]
+        target = targets[ti]
         try:
-            r = glom.glom(target, g)
-            out.append({'ok': enc(r, ids, oids)})
+            r = glom.glom(target, groups[si])
+            o = {'ok': enc(r, ids, oids)}
         except Exception as e:
-            out.append({'err': exc_class(e).__name__})
-    res = dict(case)
-    res['impl'] = out
-    return res
+            o = {'err': exc_class(e).__name__}
+        o['after'] = [enc(x, {}, {}) for x in target]
+        o['ident'] = bool(edges.check() and [len(t) for t in targets] == lens)
+        out.append(o)
+    return out
+
+
+NOFORK = os.environ.get('VERIF_C16_NOFORK') == '1'
+_SERVER = None      # (pid, to_server, from_server)
+
+
+def _read_exact(f, n):
+    buf = b''
+    while len(buf) < n:
+        chunk = f.read(n - len(buf))
+        if not chunk:
+            return buf
+        buf += chunk
+    return buf
+
+
+def _server_main(rfd, wfd):
+    """a small process that has imported glom and evaluates NOTHING itself: it forks one child per
+    case (cheap: the server stays small, unlike the check process), the child runs the history"""
+    import gc
+    rf, wf = os.fdopen(rfd, 'rb'), os.fdopen(wfd, 'wb')
+    gc.collect()
+    gc.freeze()          # the children share these pages (no copy-on-write by the collector)
+    while True:
+        hdr = _read_exact(rf, 10)
+        if len(hdr) < 10:
+            os._exit(0)
+        case = json.loads(_read_exact(rf, int(hdr)))
+        r, w = os.pipe()
+        pid = os.fork()
+        if pid == 0:
+            try:
+                os.close(r)
+                try:
+                    data = json.dumps({'impl': _run_here(case)})
+                except BaseException as e:      # harness bug: reported by the parent
+                    data = json.dumps({'crash': repr(e)})
+                with os.fdopen(w, 'w') as f:
+                    f.write(data)
+            finally:
+                os._exit(0)
+        os.close(w)
+        with os.fdopen(r, 'rb') as f:
+            out = f.read()
+        os.waitpid(pid, 0)
+        wf.write(b'%010d' % len(out))
+        wf.write(out)
+        wf.flush()
+
+
+def _stop_server():
+    global _SERVER
+    if _SERVER is not None:
+        pid, tx_, rx_ = _SERVER
+        _SERVER = None
+        for f in (tx_, rx_):
+            try:
+                f.close()
+            except OSError:
+                pass
+        try:
+            os.killpg(pid, 9)           # the server and a child that may still be running
+        except OSError:
+            pass
+        try:
+            os.waitpid(pid, 0)
+        except OSError:
+            pass
+
+
+def _start_server():
+    global _SERVER
+    import atexit
+    p2s_r, p2s_w = os.pipe()
+    s2p_r, s2p_w = os.pipe()
+    pid = os.fork()
+    if pid == 0:
+        try:
+            os.setsid()
+            os.close(p2s_w)
+            os.close(s2p_r)
+            _server_main(p2s_r, s2p_w)
+        finally:
+            os._exit(0)
+    os.close(p2s_r)
+    os.close(s2p_w)
+    _SERVER = (pid, os.fdopen(p2s_w, 'wb'), os.fdopen(s2p_r, 'rb'))
+    atexit.register(_stop_server)
+
+
+def run_impl(case):
+    """every case is a history that runs in a FRESH copy of a process that has imported glom and
+    evaluated nothing (a fork server forks one child per case), so what a case observes never depends
+    on the cases before it (module-level tables, caches) and a stored case replays exactly"""
+    import glom  # noqa: F401  (this process imports, never evaluates)
+    import glom.grouping  # noqa: F401
+    import glom.reduction  # noqa: F401
+    c = normalize(case)
+    if NOFORK or not hasattr(os, 'fork'):
+        c['impl'] = _run_here(c)
+        return c
+    if _SERVER is None:
+        _start_server()
+    _, to_server, from_server = _SERVER
+    data = json.dumps(c).encode()
+    done = False
+    try:
+        to_server.write(b'%010d' % len(data))
+        to_server.write(data)
+        to_server.flush()
+        hdr = _read_exact(from_server, 10)
+        out = _read_exact(from_server, int(hdr)) if len(hdr) == 10 else b''
+        done = len(hdr) == 10
+    finally:
+        if not done:                    # the framework's per-case budget fired (the child hangs), or the server died
+            _stop_server()
+    if not done:
+        raise RuntimeError('the fork server died')
+    res = json.loads(out)
+    if 'crash' in res:
+        raise RuntimeError(res['crash'])
+    c['impl'] = res['impl']
+    return c
 
 
 # ------------------------------------------------------------------ generators
@@ -242,7 +546,75 @@ def fn(name, **kw):
     return d
 
 
-def key_fn(rng, fam):
+def tx(*ops):
+    return {'fn': 't', 'ops': list(ops)}
+
+
+def o_item(k):
+    return {'op': 'item', 'k': jv(k)}
+
+
+def o_add(v):
+    return {'op': 'add', 'v': jv(v)}
+
+
+def o_mul(n):
+    return {'op': 'mul', 'n': n}
+
+
+def o_or(v):
+    return {'op': 'or', 'v': jv(v)}
+
+
+def o_mod(n):
+    return {'op': 'mod', 'n': n}
+
+
+def cls(c):
+    return {'fn': 'cls', 'c': c}
+
+
+# T-expression chains per item family; the mutable operands are lists (w), dicts (m) and list items
+T_KEYS = {
+    'int': lambda r: r.choice([tx(o_add(1), o_mod(2)), tx(o_mul(2), o_mod(3)), tx(o_add(1)), tx(o_mul(0)),
+                               tx(o_mul(-1)), tx(o_add(True), o_mod(3))]),
+    'rec': lambda r: r.choice([tx(o_item('a'), o_add(1)), tx(o_item('b'), o_add('s')), tx(o_item('b'), o_mul(2)),
+                               tx(o_item('w'), o_add([7]), o_item(0)), tx(o_item('w'), o_mul(2), o_item(-1)),
+                               tx(o_item('w'), o_add([0, 1]), o_item(-2)),
+                               tx(o_item('m'), o_or({'zz': 5}), o_item('zz')), tx(o_or({'g': 'all'}), o_item('g')),
+                               tx(o_item('a'), o_mod(2))]),
+    'seq': lambda r: r.choice([tx(o_add([0]), o_item(0)), tx(o_mul(2), o_item(0)), tx(o_item(0), o_add(1)),
+                               tx(o_item(0), o_mod(2)), tx(o_add([3, 4]), o_item(-2)), tx(o_mul(2), o_item(-1))]),
+}
+T_VALS = {
+    'int': lambda r: r.choice([tx(o_add(1)), tx(o_mul(2)), tx(o_mul(3), o_add(1)), tx(o_mod(3))]),
+    'rec': lambda r: r.choice([tx(o_item('w'), o_add([9])), tx(o_item('w'), o_mul(2)), tx(o_item('m'), o_or({'z': 1})),
+                               tx(o_or({'zz': 0})), tx(o_item('w')), tx(o_item('w'), o_add([1]), o_add([2])),
+                               tx(o_item('b'), o_add('!')), tx(o_item('v'), o_mul(2)),
+                               tx(o_item('m'), o_or({'p': 7}), o_or({'q': 8}))]),
+    'seq': lambda r: r.choice([tx(o_add([9])), tx(o_mul(2)), tx(o_add([1]), o_mul(2)), tx(o_mul(0)),
+                               tx(o_add([8]), o_item(-1))]),
+}
+T_FLAT = {
+    'rec': lambda r: r.choice([tx(o_item('w'), o_add([5])), tx(o_item('w'), o_mul(2)), tx(o_item('w'))]),
+    'seq': lambda r: r.choice([tx(o_add([1])), tx(o_mul(2)), tx(o_add([]))]),
+}
+T_MERGE = {'rec': lambda r: r.choice([tx(o_item('m'), o_or({'r': 5})), tx(o_item('m')), tx(o_or({'zz': 1}))])}
+T_SUM = {
+    'int': lambda r: r.choice([tx(o_add(1)), tx(o_mul(3))]),
+    'rec': lambda r: r.choice([tx(o_item('v'), o_add(1)), tx(o_item('v'), o_mul(2)), tx(o_item('a'))]),
+    'seq': lambda r: r.choice([tx(o_item(0)), tx(o_item(0), o_add(1))]),
+}
+CLS_KEYS = {'int': ['type', 'str', 'bool', 'int'], 'rec': ['type', 'bool', 'str'], 'seq': ['type', 'bool', 'str']}
+
+
+def key_fn(rng, fam, bias=None):
+    """bias: 'tarith' / 'clsobj' force that class of key function"""
+    c = rng.random()
+    if bias == 'tarith' or (bias is None and c < 0.1):
+        return T_KEYS[fam](rng)
+    if bias == 'clsobj' or (bias is None and c < 0.18):
+        return cls(rng.choice(CLS_KEYS[fam]))
     if fam == 'int':
         c = rng.random()
         if c < 0.5:
@@ -261,7 +633,12 @@ def key_fn(rng, fam):
     return rng.choice([fn('len'), fn('item', k=jv(0)), fn('item', k=jv(-1))])
 
 
-def val_fn(rng, fam):
+def val_fn(rng, fam, bias=None):
+    c = rng.random()
+    if bias == 'tarith' or (bias is None and c < 0.14):
+        return T_VALS[fam](rng)
+    if bias == 'clsobj' or (bias is None and c < 0.2):
+        return cls(rng.choice(CLS_KEYS[fam]))
     if fam == 'int':
         return rng.choice([fn('ident'), fn('ident', style='lambda'), fn('skip_odd'), fn('mod', n=3),
                            fn('skip_if', v=jv(rng.choice([1, 2]))), fn('ident')])
@@ -270,43 +647,60 @@ def val_fn(rng, fam):
     return rng.choice([fn('ident'), fn('len'), fn('item', k=jv(0))])
 
 
-def leaf(rng, fam, ctr, allow_nested=True):
+def agg_choice(rng, fam, bias=None):
+    ta = bias == 'tarith' or (bias is None and rng.random() < 0.15)
+    if bias == 'clsobj' or (bias is None and rng.random() < 0.08):
+        return rng.choice([{'agg': 'cls_last'}, {'agg': 'cls_count'}, {'agg': 'cls_last'}])
+    if rng.random() < 0.07:
+        return {'agg': 'sample', 'size': rng.choice([0, 1, 2, 2, 3]), 'tbl': []}
+    if fam == 'int':
+        if ta:
+            return {'agg': 'sum', 'f': T_SUM['int'](rng)}
+        return rng.choice([{'agg': 'first'}, {'agg': 'max'}, {'agg': 'min'}, {'agg': 'avg'}, {'agg': 'count'},
+                           {'agg': 'sum', 'f': fn('ident')}, {'agg': 'sum'}, {'agg': 'sum', 'f': fn('mod', n=3)},
+                           {'agg': 'max'}, {'agg': 'avg'}])
+    if fam == 'rec':
+        if ta:
+            return rng.choice([{'agg': 'flatten', 'f': T_FLAT['rec'](rng)}, {'agg': 'merge', 'f': T_MERGE['rec'](rng)},
+                               {'agg': 'sum', 'f': T_SUM['rec'](rng)}, {'agg': 'flatten', 'f': T_FLAT['rec'](rng)}])
+        return rng.choice([{'agg': 'first'}, {'agg': 'count'}, {'agg': 'sum', 'f': fn('item', k=jv('v'))},
+                           {'agg': 'flatten', 'f': fn('item', k=jv('w'))}, {'agg': 'merge', 'f': fn('item', k=jv('m'))},
+                           {'agg': 'merge'}, {'agg': 'flatten', 'f': fn('ident')}])
+    if ta:
+        return rng.choice([{'agg': 'flatten', 'f': T_FLAT['seq'](rng)}, {'agg': 'sum', 'f': T_SUM['seq'](rng)}])
+    return rng.choice([{'agg': 'first'}, {'agg': 'count'}, {'agg': 'flatten'}, {'agg': 'flatten', 'f': fn('ident')},
+                       {'agg': 'sum', 'f': fn('len')}, {'agg': 'count'}])
+
+
+def leaf(rng, fam, ctr, allow_nested=True, bias=None):
     c = rng.random()
     if c < 0.32:
-        return {'k': 'list', 'id': ctr.next(), 'f': val_fn(rng, fam)}
+        return {'k': 'list', 'id': ctr.next(), 'f': val_fn(rng, fam, bias)}
     if c < 0.9:
-        if fam == 'int':
-            a = rng.choice([{'agg': 'first'}, {'agg': 'max'}, {'agg': 'min'}, {'agg': 'avg'}, {'agg': 'count'},
-                            {'agg': 'sum', 'f': fn('ident')}, {'agg': 'sum'}, {'agg': 'sum', 'f': fn('mod', n=3)},
-                            {'agg': 'max'}, {'agg': 'avg'}])
-        elif fam == 'rec':
-            a = rng.choice([{'agg': 'first'}, {'agg': 'count'}, {'agg': 'sum', 'f': fn('item', k=jv('v'))},
-                            {'agg': 'flatten', 'f': fn('item', k=jv('w'))}, {'agg': 'merge', 'f': fn('item', k=jv('m'))},
-                            {'agg': 'merge'}, {'agg': 'flatten', 'f': fn('ident')}])
-        else:
-            a = rng.choice([{'agg': 'first'}, {'agg': 'count'}, {'agg': 'flatten'}, {'agg': 'flatten', 'f': fn('ident')},
-                            {'agg': 'sum', 'f': fn('len')}, {'agg': 'count'}])
-        return {'k': 'agg', 'oid': ctr.next(), 'a': a}
+        return {'k': 'agg', 'oid': ctr.next(), 'a': agg_choice(rng, fam, bias)}
     if fam == 'seq' and allow_nested and rng.random() < 0.35:
-        inner = gen_spec(rng, 'int', ctr, rng.choice([0, 0, 1]), top=True, allow_nested=False)
+        inner = gen_spec(rng, 'int', ctr, rng.choice([0, 0, 1]), allow_nested=False)
         return {'k': 'nested', 'g': inner}
     if c < 0.96 or fam != 'seq' or not allow_nested:
-        f = val_fn(rng, fam)
+        f = val_fn(rng, fam, bias)
         if f['fn'] in ('skip_odd', 'skip_if'):
             f = fn('ident')
         return {'k': 'fn', 'f': f}
-    inner = gen_spec(rng, 'int', ctr, rng.choice([0, 0, 1]), top=True, allow_nested=False)
+    inner = gen_spec(rng, 'int', ctr, rng.choice([0, 0, 1]), allow_nested=False)
     return {'k': 'nested', 'g': inner}
 
 
-def gen_spec(rng, fam, ctr, depth, top=True, allow_nested=True):
+def gen_spec(rng, fam, ctr, depth, allow_nested=True, bias=None):
+    """bias is applied at ONE randomly chosen position (a key level or the leaf) — every position is hit"""
+    pos = rng.randint(0, depth) if bias else None
+    return _gen_spec(rng, fam, ctr, depth, allow_nested, bias, pos)
+
+
+def _gen_spec(rng, fam, ctr, depth, allow_nested, bias, pos):
     if depth == 0:
-        s = leaf(rng, fam, ctr, allow_nested)
-    else:
-        did, kid = ctr.next(), ctr.next()
-        s = {'k': 'dict', 'id': did, 'kid': kid, 'key': key_fn(rng, fam),
-             'sub': gen_spec(rng, fam, ctr, depth - 1, top=False, allow_nested=allow_nested)}
-    return s
+        return leaf(rng, fam, ctr, allow_nested, bias if pos == 0 else None)
+    key = key_fn(rng, fam, bias if pos == depth else None)
+    return mk_dict(ctr, key, _gen_spec(rng, fam, ctr, depth - 1, allow_nested, bias, pos))
 
 
 def stop_free_leaf(s, no_avg=False):
@@ -315,28 +709,80 @@ def stop_free_leaf(s, no_avg=False):
         s['a'] = {'agg': 'count'}
     if no_avg and s['k'] == 'agg' and s['a']['agg'] == 'avg':
         s['a'] = {'agg': 'sum'}      # Avg's [sum, count] is modelled with an exact int sum (visible only in corrupted trees)
+    if no_avg and s['k'] == 'agg' and s['a']['agg'] == 'sample':
+        s['a'] = {'agg': 'count'}
     if s['k'] in ('dict', 'limit'):
         stop_free_leaf(s['sub'], no_avg)
     return s
 
 
+def gen_item(rng, fam):
+    if fam == 'int':
+        return jv(rng.choice([True, False]) if rng.random() < 0.06 else rng.randint(-3, 12))
+    if fam == 'rec':
+        return jv({'g': rng.choice(['x', 'y', 'z', 0, 1]), 'a': rng.randint(0, 3), 'b': rng.choice(['p', 'q']),
+                   'v': rng.randint(-5, 20), 'w': [rng.randint(0, 9) for _ in range(rng.choice([0, 1, 2]))],
+                   'm': {rng.choice(['p', 'q', 'r']): rng.randint(0, 9) for _ in range(rng.choice([0, 1, 2]))}})
+    xs = [rng.randint(0, 9) for _ in range(rng.choice([0, 1, 2, 3]))]
+    return jv(xs if rng.random() < 0.7 else tuple(xs))
+
+
 def gen_items(rng, fam, n=None):
     n = rng.choice([0, 1, 2, 3, 4, 5, 6, 8, 12]) if n is None else n
-    out = []
-    for _ in range(n):
-        if fam == 'int':
-            c = rng.random()
-            out.append(jv(rng.choice([True, False]) if c < 0.06 else rng.randint(-3, 12)))
-        elif fam == 'rec':
-            d = {'g': rng.choice(['x', 'y', 'z', 0, 1]), 'a': rng.randint(0, 3), 'b': rng.choice(['p', 'q']),
-                 'v': rng.randint(-5, 20), 'w': [rng.randint(0, 9) for _ in range(rng.choice([0, 1, 2]))],
-                 'm': {rng.choice(['p', 'q', 'r']): rng.randint(0, 9) for _ in range(rng.choice([0, 1, 2]))}}
-            out.append(jv(d))
+    return [gen_item(rng, fam) for _ in range(n)]
+
+
+def add_sharing(rng, fam, targets, shared, force=False):
+    """the same item object at several positions (of one or several targets); a list / dict field
+    shared by several items"""
+    if fam == 'int' or not (force or rng.random() < 0.3):
+        return
+    places = [(ti, i) for ti, t in enumerate(targets) for i in range(len(t)) if 'sh' not in (t[i] or {})]
+    for _ in range(rng.choice([1, 1, 2])):
+        if not places:
+            return
+        ti, i = rng.choice(places)
+        c = rng.random()
+        if c < 0.6 or fam == 'seq':
+            # the whole item becomes a shared object that occurs again
+            shared.append(targets[ti][i])
+            ref = {'sh': len(shared) - 1}
+            targets[ti][i] = ref
+            for _ in range(rng.choice([1, 1, 2])):
+                tj = rng.randrange(len(targets))
+                targets[tj].insert(rng.randint(0, len(targets[tj])), dict(ref))
         else:
-            k = rng.choice([0, 1, 2, 3])
-            xs = [rng.randint(0, 9) for _ in range(k)]
-            out.append(jv(xs if rng.random() < 0.7 else tuple(xs)))
-    return out
+            # a field of a record is shared with another record
+            it = targets[ti][i]
+            fld = rng.choice(['w', 'm'])
+            if not (isinstance(it, dict) and 'd' in it):
+                continue
+            ent = next((e for e in it['d'] if e[0] == jv(fld)), None)
+            others = [(tj, j) for (tj, j) in places if (tj, j) != (ti, i) and 'd' in (targets[tj][j] or {})]
+            if ent is None or not others or 'sh' in (ent[1] or {}):
+                continue
+            shared.append(ent[1])
+            ref = {'sh': len(shared) - 1}
+            ent[1] = ref
+            for tj, j in rng.sample(others, min(len(others), rng.choice([1, 2]))):
+                for e in targets[tj][j]['d']:
+                    if e[0] == jv(fld):
+                        e[1] = dict(ref)
+        places = [(ti, i) for ti, t in enumerate(targets) for i in range(len(t)) if 'sh' not in (t[i] or {})]
+
+
+def set_key(d, key, ctr):
+    """the key function of a dict level; its key-spec object number: a class object is itself"""
+    d['key'] = key
+    if key['fn'] == 'cls':
+        d['kid'] = CLS_BASE + CLS_IDX[key['c']]
+    elif d.get('kid', CLS_BASE) >= CLS_BASE:
+        d['kid'] = ctr.next()
+    return d
+
+
+def mk_dict(ctr, key, sub):
+    return set_key({'k': 'dict', 'id': ctr.next(), 'sub': sub}, key, ctr)
 
 
 def first_dict(s):
@@ -355,13 +801,20 @@ def deepest_sub_holder(s):
     return d
 
 
+STREAMS = ['main', 'toplimit', 'mutate', 'h1', 'h2', 'hist', 'tarith', 'quiet']
+WEIGHTS = [0.38, 0.08, 0.12, 0.10, 0.08, 0.11, 0.09, 0.04]
+
+
 def gen_case(rng, tier, stream=None):
     ctr = Ctr()
     fam = rng.choice(['int', 'int', 'int', 'rec', 'rec', 'seq'])
+    st = stream or rng.choices(STREAMS, WEIGHTS)[0]
+    if st == 'tarith' and fam == 'int' and rng.random() < 0.8:
+        fam = rng.choice(['rec', 'rec', 'seq'])
     depth = rng.choice([0, 1, 1, 1, 2, 2, 3])
-    spec = gen_spec(rng, fam, ctr, depth)
-    st = stream or rng.choices(['main', 'toplimit', 'mutate', 'h1', 'h2'], [0.55, 0.12, 0.13, 0.11, 0.09])[0]
-    if st in ('main', 'toplimit', 'mutate', 'h2'):
+    bias = {'tarith': 'tarith', 'hist': rng.choice(['clsobj', 'clsobj', None])}.get(st)
+    spec = gen_spec(rng, fam, ctr, depth, bias=bias)
+    if st != 'h1':
         d = first_dict(spec)
         if d is not None:
             stop_free_leaf(d['sub'], st == 'h2')
@@ -369,31 +822,55 @@ def gen_case(rng, tier, stream=None):
             stop_free_leaf(spec, True)
     if st == 'toplimit' or (st == 'main' and rng.random() < 0.1):
         spec = {'k': 'limit', 'oid': ctr.next(), 'n': rng.choice([0, 1, 2, 3, 3, 5, 8]), 'sub': spec}
-    runs = [gen_items(rng, fam) for _ in range(rng.choice([1, 1, 2, 3]))]
+    targets = [gen_items(rng, fam) for _ in range(rng.choice([1, 1, 2, 3]))]
+    specs = [spec]
+    if st == 'quiet':
+        # STOP sources that do not fire: Limit(n) below the key levels with n above every bucket size,
+        # First under a key function that gives every item its own bucket
+        d = deepest_sub_holder(spec)
+        if d is not None:
+            if rng.random() < 0.6:
+                d['sub'] = {'k': 'limit', 'oid': ctr.next(), 'n': rng.choice([12, 13, 40]), 'sub': d['sub']}
+            elif fam == 'int':
+                set_key(d, fn('ident'), ctr)
+                d['sub'] = {'k': 'agg', 'oid': ctr.next(), 'a': {'agg': 'first'}}
+                targets = [sorted({json.dumps(x) for x in t if x is not None and 'i' in x}) for t in targets]
+                targets = [[json.loads(x) for x in t] for t in targets]
+                for t in targets:
+                    rng.shuffle(t)
     if st == 'mutate':
         m = rng.random()
-        r = rng.choice(runs)
-        if m < 0.4 and r:
+        r = rng.choice(targets)
+        if m < 0.35 and r:
             r.insert(rng.randint(0, len(r)), jv(rng.choice(['zz', None, [1], {'q': 1}, 3])))
-        elif m < 0.6:
+        elif m < 0.5:
             d = deepest_sub_holder(spec)
             if d is not None and d['sub']['k'] == 'list':
                 d['sub']['f'] = fn('stop_at', n=rng.choice([2, 5]))
             elif spec['k'] == 'list':
                 spec['f'] = fn('stop_at', n=rng.choice([2, 5]))
+        elif m < 0.65:
+            d = first_dict(spec)
+            if d is not None:
+                set_key(d, fn('item', k=jv('nope')), ctr)
         elif m < 0.8:
             d = first_dict(spec)
             if d is not None:
-                d['key'] = fn('item', k=jv('nope'))
+                set_key(d, fn('stop_at', n=rng.choice([3, 6])), ctr)
         else:
-            d = first_dict(spec)
+            # the parentheses of an aggregator were forgotten: the CLASS is the leaf
+            lf = {'k': 'agg', 'oid': ctr.next(), 'a': {'agg': 'unbound', 'of': rng.choice(['First', 'Max', 'Min', 'Avg'])}}
+            d = deepest_sub_holder(spec)
             if d is not None:
-                d['key'] = fn('stop_at', n=rng.choice([3, 6]))
+                d['sub'] = lf
+            else:
+                spec = lf
+                specs = [spec]
     if st == 'h1':
         d = deepest_sub_holder(spec)
         if d is None:
-            did, kid = ctr.next(), ctr.next()
-            spec = {'k': 'dict', 'id': did, 'kid': kid, 'key': key_fn(rng, fam), 'sub': spec}
+            spec = mk_dict(ctr, key_fn(rng, fam), spec)
+            specs = [spec]
             d = spec
         c = rng.random()
         if c < 0.5:
@@ -408,16 +885,17 @@ def gen_case(rng, tier, stream=None):
     if st == 'h2':
         d = first_dict(spec)
         if d is None:
-            did, kid = ctr.next(), ctr.next()
-            spec = {'k': 'dict', 'id': did, 'kid': kid, 'key': key_fn(rng, fam), 'sub': spec}
+            spec = mk_dict(ctr, key_fn(rng, fam), spec)
+            specs = [spec]
             d = spec
         tgt = d if rng.random() < 0.7 else deepest_sub_holder(spec)
         probe = None
-        for r in runs:
+        for r in targets:
             if r:
                 probe = rng.choice(r)
         c = rng.random()
         scalar = isinstance(probe, dict) and ('i' in probe or 'b' in probe or 's' in probe)
+        set_key(tgt, fn('ident'), ctr)      # (a class object as key function gives its number back)
         if c < 0.6 and scalar:
             tgt['key'] = fn('id_if', v=probe, n=tgt['id'])
         elif c < 0.75:
@@ -428,7 +906,33 @@ def gen_case(rng, tier, stream=None):
             # the id of ANOTHER container (harmless) or of the leaf list
             other = tgt['sub'].get('id', tgt['id'])
             tgt['key'] = fn('id_if', v=probe if scalar else jv(1), n=other)
-    return {'spec': spec, 'runs': runs, 'stream': st}
+    # ---- the history
+    shared = []
+    if st != 'h2':
+        add_sharing(rng, fam, targets, shared, force=(st == 'tarith' and rng.random() < 0.7))
+    evals = [[0, i] for i in range(len(targets))]
+    if st == 'hist':
+        # further spec objects (each with its own counter space), evaluated in between, in every order
+        for _ in range(rng.choice([1, 1, 2])):
+            c2 = Ctr()
+            s2 = gen_spec(rng, fam, c2, rng.choice([0, 1, 1, 2]), bias=rng.choice(['clsobj', 'clsobj', None]))
+            d = first_dict(s2)
+            if d is not None:
+                stop_free_leaf(d['sub'])
+            specs.append(s2)
+        evals = [[si, rng.randrange(len(targets))] for si in range(len(specs))]
+        for _ in range(rng.choice([0, 1, 2, 3])):
+            evals.append([rng.randrange(len(specs)), rng.randrange(len(targets))])
+        rng.shuffle(evals)
+    elif st != 'h2' and rng.random() < (0.8 if st == 'tarith' else 0.3):
+        # the same spec object over the same target object again
+        for _ in range(rng.choice([1, 1, 2])):
+            evals.insert(rng.randint(0, len(evals)), [0, rng.randrange(len(targets))])
+    tbl = [rng.randint(0, 20) for _ in range(rng.choice([1, 3, 5, 7]))] if rng.random() < 0.9 else []
+    case = {'specs': specs, 'shared': shared, 'targets': targets, 'evals': evals, 'rng': tbl, 'stream': st}
+    for s in specs:
+        set_tbl(s, tbl)
+    return case
 
 
 def generate(rng, tier, scale, stream=None, **focus):
@@ -437,19 +941,23 @@ def generate(rng, tier, scale, stream=None, **focus):
         yield gen_case(rng, tier, stream)
     if tier == 'thorough' and not stream:
         yield from exhaustive()
+        yield from exhaustive_histories()
 
 
 def exhaustive():
     """every spec of a small grammar (<= 2 key levels) over fixed int item lists, evaluated twice"""
-    keyfns = [fn('mod', n=2), fn('mod', n=3), fn('key_skip', n=2), fn('skip_odd'), fn('const', v=jv('k'))]
+    keyfns = [fn('mod', n=2), fn('mod', n=3), fn('key_skip', n=2), fn('skip_odd'), fn('const', v=jv('k')),
+              cls('bool'), tx(o_add(1), o_mod(2))]
     leaves = [lambda c: {'k': 'list', 'id': c.next(), 'f': fn('ident')},
               lambda c: {'k': 'list', 'id': c.next(), 'f': fn('skip_odd')},
-              lambda c: {'k': 'fn', 'f': fn('ident')}]
-    for a in ('first', 'max', 'min', 'avg', 'count', 'sum'):
+              lambda c: {'k': 'fn', 'f': fn('ident')},
+              lambda c: {'k': 'limit', 'oid': c.next(), 'n': 2, 'sub': {'k': 'list', 'id': c.next(), 'f': fn('ident')}}]
+    for a in ('first', 'max', 'min', 'avg', 'count', 'sum', 'cls_last', 'cls_count'):
         leaves.append(lambda c, a=a: {'k': 'agg', 'oid': c.next(), 'a': {'agg': a}})
+    leaves.append(lambda c: {'k': 'agg', 'oid': c.next(), 'a': {'agg': 'sample', 'size': 2, 'tbl': []}})
     runs_list = [[[1, 2, 3, 4, 5, 6, 7]], [[0, 2, 1], [4]], [[]], [[3, 3, 3]], [[5, 1, 4, 1, 2, 2]]]
+    import itertools
     for depth in (0, 1, 2):
-        import itertools
         for keys in itertools.product(keyfns, repeat=depth):
             for lf in leaves:
                 for lim in (None, 2):
@@ -457,11 +965,40 @@ def exhaustive():
                         c = Ctr()
                         s = lf(c)
                         for kf in reversed(keys):
-                            did, kid = c.next(), c.next()
-                            s = {'k': 'dict', 'id': did, 'kid': kid, 'key': dict(kf), 'sub': s}
+                            s = mk_dict(c, json.loads(json.dumps(kf)), s)
                         if lim is not None:
                             s = {'k': 'limit', 'oid': c.next(), 'n': lim, 'sub': s}
-                        yield {'spec': s, 'runs': [[jv(x) for x in r] for r in runs], 'stream': 'exhaustive'}
+                        yield {'spec': s, 'runs': [[jv(x) for x in r] for r in runs], 'rng': [4, 0, 1],
+                               'stream': 'exhaustive'}
+
+
+def exhaustive_histories():
+    """class-object nodes of both kinds (plain callables / aggregator classes) and ordinary nodes, two or
+    three spec objects, EVERY order of evaluation, over shared mutable items"""
+    import itertools
+
+    def mk(keyf, leaf_a=None, leaf_f=None):
+        c = Ctr()
+        if leaf_a is not None:
+            lf = {'k': 'agg', 'oid': c.next(), 'a': dict(leaf_a)}
+        else:
+            lf = {'k': 'list', 'id': c.next(), 'f': leaf_f}
+        if keyf is None:
+            return lf
+        return mk_dict(c, keyf, lf)
+    pool = [mk(fn('len'), {'agg': 'cls_last'}), mk(cls('type'), leaf_f=fn('ident')), mk(cls('bool'), {'agg': 'count'}),
+            mk(fn('len'), {'agg': 'cls_count'}), mk(None, {'agg': 'cls_last'}), mk(None, leaf_f=cls('str')),
+            mk(fn('len'), {'agg': 'flatten', 'f': tx(o_mul(2))}), mk(tx(o_add([0]), o_item(0)), leaf_f=tx(o_add([9]))),
+            mk(fn('len'), {'agg': 'unbound', 'of': 'First'}), mk(cls('type'), {'agg': 'cls_count'})]
+    shared = [jv([1, 2]), jv([3])]
+    target = [{'sh': 0}, {'sh': 1}, jv([4, 5, 6]), {'sh': 0}, jv((7,))]
+    for k in (2, 3):
+        for combo in itertools.permutations(range(len(pool)), k):
+            if k == 3 and combo[0] > 3:
+                continue
+            yield {'specs': [json.loads(json.dumps(pool[i])) for i in combo], 'shared': shared,
+                   'targets': [target], 'evals': [[i, 0] for i in range(k)] + [[0, 0]], 'rng': [2],
+                   'stream': 'exhaustive-hist'}
 
 
 def corpus():
@@ -482,6 +1019,31 @@ def corpus():
                          {'k': 'dict', 'id': 0, 'kid': 1, 'key': fn('mod', n=2),
                           'sub': {'k': 'limit', 'oid': 2, 'n': 2, 'sub': {'k': 'list', 'id': 3, 'f': fn('ident')}}}},
                 'runs': [[jv(x) for x in range(10)]], 'stream': 'corpus'})
+    # class objects as nodes, both kinds, both orders, in one process
+    last = {'k': 'dict', 'id': 0, 'kid': 1, 'key': fn('mod', n=2), 'sub': {'k': 'agg', 'oid': 2, 'a': {'agg': 'cls_last'}}}
+    bytype = {'k': 'dict', 'id': 0, 'kid': CLS_BASE + CLS_IDX['type'], 'key': cls('type'),
+              'sub': {'k': 'list', 'id': 2, 'f': fn('ident')}}
+    nums = [jv(x) for x in (3, 8, 5, 2, 7)]
+    mixed = [jv(x) for x in (1, 'a', None, 'b', 3, True)]
+    out.append({'specs': [last, bytype], 'shared': [], 'targets': [nums, mixed],
+                'evals': [[0, 0], [1, 1], [1, 0], [0, 0]], 'stream': 'corpus'})
+    out.append({'specs': [bytype, last], 'shared': [], 'targets': [mixed, nums],
+                'evals': [[0, 0], [1, 1], [0, 1], [1, 1]], 'stream': 'corpus'})
+    # T arithmetic over mutable items: one row object twice, key and leaf from the same field, the same
+    # spec object twice over the same target object
+    out.append({'specs': [{'k': 'dict', 'id': 0, 'kid': 1, 'key': tx(o_item(0)),
+                           'sub': {'k': 'list', 'id': 2, 'f': tx(o_add(['end']))}}],
+                'shared': [jv(['a', 1])], 'targets': [[{'sh': 0}, jv(['b', 2]), {'sh': 0}]],
+                'evals': [[0, 0], [0, 0]], 'stream': 'corpus'})
+    out.append({'specs': [{'k': 'dict', 'id': 0, 'kid': 1, 'key': tx(o_item('w'), o_add([0]), o_item(0)),
+                           'sub': {'k': 'agg', 'oid': 2, 'a': {'agg': 'flatten', 'f': tx(o_item('w'), o_mul(2))}}}],
+                'shared': [jv([4, 5])],
+                'targets': [[jv({'w': [1]}), {'d': [[jv('w'), {'sh': 0}]]}, {'d': [[jv('w'), {'sh': 0}]]}]],
+                'evals': [[0, 0], [0, 0]], 'stream': 'corpus'})
+    out.append({'specs': [{'k': 'dict', 'id': 0, 'kid': 1, 'key': fn('len'),
+                           'sub': {'k': 'agg', 'oid': 2, 'a': {'agg': 'sample', 'size': 2, 'tbl': []}}}],
+                'shared': [], 'targets': [[jv([x] * (x % 2 + 1)) for x in range(9)]], 'evals': [[0, 0], [0, 0]],
+                'rng': [0, 5, 1, 9], 'stream': 'corpus'})
     p = os.path.join(os.path.dirname(os.path.dirname(os.path.dirname(os.path.abspath(__file__)))),
                      'corpus', 'C16.jsonl')
     if os.path.exists(p):
@@ -492,11 +1054,13 @@ def corpus():
 
 
 def key(case):
-    return {'spec': case['spec'], 'runs': case['runs']}
+    c = normalize(case)
+    return {'specs': c['specs'], 'shared': c['shared'], 'targets': c['targets'], 'evals': c['evals'], 'rng': c['rng']}
 
 
 def nontrivial(case, verdict):
-    return any(len(r) >= 2 for r in case['runs'])
+    c = normalize(case)
+    return any(len(c['targets'][ti]) >= 2 for _, ti in c['evals'])
 
 
 def classify(case, verdict):
@@ -549,32 +1113,84 @@ def strip_features(s, below=False):
     return s
 
 
+def _inline(j, n, val):
+    if not isinstance(j, dict):
+        return j
+    if 'sh' in j:
+        return json.loads(json.dumps(val)) if j['sh'] == n else j
+    if 'l' in j:
+        return {'l': [_inline(x, n, val) for x in j['l']]}
+    if 't' in j:
+        return {'t': [_inline(x, n, val) for x in j['t']]}
+    if 'd' in j:
+        return {'d': [[_inline(k, n, val), _inline(v, n, val)] for k, v in j['d']]}
+    return j
+
+
 def shrink(case):
-    base = {k: v for k, v in case.items() if not k.startswith('impl')}
-    if known_features(case['spec']):
+    base = normalize(case)
+    if any(known_features(s) for s in base['specs']):
         # first get rid of what the two KNOWN defects need; while it is there, do not shrink further
         # (a greedy shrinker would drift from a new failure into a known one)
-        c = dict(base); c['spec'] = strip_features(case['spec'])
+        c = dict(base); c['specs'] = [strip_features(s) for s in base['specs']]
         yield c
         return
-    runs = case['runs']
-    for i in range(len(runs)):
-        if len(runs) > 1:
-            c = dict(base); c['runs'] = runs[:i] + runs[i + 1:]
+    specs, targets, evals, shared = base['specs'], base['targets'], base['evals'], base['shared']
+    # fewer evaluations
+    for i in range(len(evals)):
+        if len(evals) > 1:
+            c = dict(base); c['evals'] = evals[:i] + evals[i + 1:]
             yield c
-    for i, r in enumerate(runs):
+    # spec objects / target objects nobody evaluates any more
+    used_s = sorted({si for si, _ in evals})
+    if len(used_s) < len(specs):
+        c = dict(base); c['specs'] = [specs[i] for i in used_s]
+        c['evals'] = [[used_s.index(si), ti] for si, ti in evals]
+        yield c
+    used_t = sorted({ti for _, ti in evals})
+    if len(used_t) < len(targets):
+        c = dict(base); c['targets'] = [targets[i] for i in used_t]
+        c['evals'] = [[si, used_t.index(ti)] for si, ti in evals]
+        yield c
+    # fewer items
+    for i, r in enumerate(targets):
         for j in range(len(r)):
-            c = dict(base); c['runs'] = runs[:i] + [r[:j] + r[j + 1:]] + runs[i + 1:]
+            c = dict(base); c['targets'] = targets[:i] + [r[:j] + r[j + 1:]] + targets[i + 1:]
             yield c
-    s = case['spec']
-    if s['k'] in ('limit', 'dict'):
-        c = dict(base); c['spec'] = s['sub']
+    # less sharing: a shared object becomes separate equal objects
+    for n in range(len(shared)):
+        if any(json.dumps({'sh': n}, sort_keys=True) in json.dumps(t, sort_keys=True) for t in targets + shared):
+            c = dict(base)
+            c['targets'] = [[_inline(x, n, shared[n]) for x in t] for t in targets]
+            c['shared'] = [_inline(x, n, shared[n]) if m != n else x for m, x in enumerate(shared)]
+            yield c
+    if shared and not any('"sh"' in json.dumps(t) for t in targets):
+        c = dict(base); c['shared'] = []
         yield c
-    if s['k'] == 'dict' and s['sub']['k'] == 'dict':
-        c = dict(base); c['spec'] = dict(s, sub=s['sub']['sub'])
-        yield c
+    # smaller specs
+    for i, s in enumerate(specs):
+        if s['k'] in ('limit', 'dict'):
+            c = dict(base); c['specs'] = specs[:i] + [s['sub']] + specs[i + 1:]
+            yield c
+        if s['k'] == 'dict' and s['sub']['k'] == 'dict':
+            c = dict(base); c['specs'] = specs[:i] + [dict(s, sub=s['sub']['sub'])] + specs[i + 1:]
+            yield c
+        if s['k'] == 'dict' and s['key']['fn'] not in ('ident', 'len'):
+            for simple in (fn('ident'), fn('len')):
+                s2 = dict(s, key=simple)
+                if s2['kid'] >= CLS_BASE:
+                    s2['kid'] = 900 + i
+                c = dict(base); c['specs'] = specs[:i] + [s2] + specs[i + 1:]
+                yield c
 
 
 def focus(disagreements, facts_changed):
-    streams = sorted({c.get('stream') for c, _ in disagreements if c.get('stream') in ('h1', 'h2', 'toplimit', 'mutate')})
-    return {'stream': streams[0]} if len(streams) == 1 else {}
+    streams = sorted({c.get('stream') for c, _ in disagreements
+                      if c.get('stream') in ('h1', 'h2', 'toplimit', 'mutate', 'hist', 'tarith', 'quiet')})
+    if len(streams) == 1:
+        return {'stream': streams[0]}
+    if not disagreements and facts_changed:
+        # the statements of Group mode / of _t_eval's arithmetic changed and no case disagrees yet:
+        # look where module state and in-place arithmetic would show
+        return {}
+    return {}
